@@ -146,9 +146,9 @@ theorem sysv_fold_inv (nb base nchain : Nat) (hb : 1 ≤ base) (hnb : 0 < nb) :
     have := ih (pre ++ [h]) _ hstep (by simp at hroom ⊢; omega)
     simpa [List.append_assoc] using this
 
-theorem sysv_init_inv (nb base nchain : Nat) :
+theorem sysv_init_inv (nb base nchain : Nat) (hpos : 0 < nchain) :
     SysvInv nb base nchain [] { buckets := List.replicate nb 0, chains := List.replicate nchain 0, last := List.replicate nb none } := by
-  refine ⟨by simp, by simp, by simp, ?_, ?_, ?_, ?_, ?_⟩
+  refine ⟨by simp, by simp, by simp, ?_, ?_, ?_, ?_, ?_, ?_, ?_⟩
   · intro i hi; simp at hi
   · intro b _ i hi; simp at hi
   · intro b v hbv hv0
@@ -166,13 +166,23 @@ theorem sysv_init_inv (nb base nchain : Nat) :
     split at hac
     · cases hac; exact absurd rfl hc0
     · cases hac
+  · intro b v hbv
+    simp only [List.getElem?_replicate] at hbv
+    split at hbv
+    · cases hbv; exact hpos
+    · cases hbv
+  · intro a c hac
+    simp only [List.getElem?_replicate] at hac
+    split at hac
+    · cases hac; exact hpos
+    · cases hac
 
 /-- (c) The `.hash` table wild builds is well-formed for the dynsym order it is built from. -/
 theorem sysv_builder_wf (base : Nat) (names : List (List UInt8)) (hb : 1 ≤ base) :
     SysvWF (buildSysv base names) base names := by
   have hnb : 0 < sysvBucketCount names.length := nextPowerOfTwo_pos _
   have inv := sysv_fold_inv (sysvBucketCount names.length) base (base + names.length) hb hnb
-    (names.map elfHash) [] _ (sysv_init_inv _ _ _) (by simp)
+    (names.map elfHash) [] _ (sysv_init_inv _ _ _ (by omega)) (by simp)
   simp only [List.nil_append, List.length_nil] at inv
   refine ⟨hb, hnb, ?_, ?_, ?_⟩
   · have := inv.lenC
@@ -239,6 +249,202 @@ theorem elfHash_eq_gabiHash (n : List UInt8) : elfHash n = gabiHash n := by
   exact (gabi_fold n 0 0 (by decide)).symm
 
 
+/-! ## No out-of-table reads; exact answer for undefined names -/
+
+
+/-- Closedness: every read glibc performs during a lookup stays inside the table. -/
+structure GnuClosed (t : GnuTable) : Prop where
+  nb_pos : 0 < t.nbuckets
+  buckets_len : t.buckets.length = t.nbuckets
+  bloom_total : ∀ x : Nat, ∃ w, t.bloom[x &&& (t.bloomSize - 1)]? = some w
+  bucket_range : ∀ (b v : Nat), t.buckets[b]? = some v → v = 0 ∨ (t.symoffset ≤ v ∧ v - t.symoffset < t.chain.length)
+  /-- chains are terminated: a word without the end bit is never the last word of the table -/
+  last_end : ∀ (j : Nat) (w : UInt32), t.chain[j]? = some w → isEnd w = false → j + 1 < t.chain.length
+
+theorem gnuWalk_total (chain : List UInt32) (syms : List (List UInt8)) (so : Nat) (h : UInt32) (n : List UInt8)
+    (hend : ∀ (j : Nat) (w : UInt32), chain[j]? = some w → isEnd w = false → j + 1 < chain.length) :
+    ∀ fuel j, j < chain.length → chain.length - j ≤ fuel →
+      (∃ i, gnuWalk chain syms so h n fuel j = .found i) ∨ gnuWalk chain syms so h n fuel j = .notFound := by
+  intro fuel
+  induction fuel with
+  | zero => intro j h1 h2; omega
+  | succ f ih =>
+    intro j h1 h2
+    unfold gnuWalk
+    rw [List.getElem?_eq_getElem h1]
+    simp only
+    split
+    · exact Or.inl ⟨_, rfl⟩
+    · split
+      · exact Or.inr rfl
+      · rename_i he
+        have := hend j _ (List.getElem?_eq_getElem h1) (by simpa using he)
+        exact ih (j + 1) this (by omega)
+
+/-- On closed tables a lookup either finds a symbol or reports "not found" (never leaves the table). -/
+theorem gnu_lookup_total_of_closed (t : GnuTable) (c : GnuClosed t) (syms : List (List UInt8)) (n : List UInt8) :
+    (∃ i, lookupGnu t syms n = .found i) ∨ lookupGnu t syms n = .notFound := by
+  unfold lookupGnu lookupGnuFuel
+  simp only
+  obtain ⟨w, hw⟩ := c.bloom_total ((dlNewHash n).toNat / 64)
+  rw [hw]
+  simp only
+  split
+  · have h1 : ¬ t.nbuckets = 0 := by have := c.nb_pos; omega
+    simp only [h1, if_false]
+    have hlt : (dlNewHash n).toNat % t.nbuckets < t.buckets.length := by
+      rw [c.buckets_len]; exact Nat.mod_lt _ c.nb_pos
+    rw [List.getElem?_eq_getElem hlt]
+    simp only
+    split
+    · exact Or.inr rfl
+    · rename_i hv0
+      rcases c.bucket_range _ _ (List.getElem?_eq_getElem hlt) with h0 | ⟨h2, h3⟩
+      · exact absurd h0 hv0
+      · have h4 : ¬ t.buckets[(dlNewHash n).toNat % t.nbuckets] < t.symoffset := by omega
+        simp only [h4, if_false]
+        exact gnuWalk_total _ _ _ _ _ c.last_end _ _ h3 (by omega)
+  · exact Or.inr rfl
+
+theorem gnuBucketsGo_range (nb base : Nat) : ∀ (l : List UInt32) i start B,
+    (∀ (b v : Nat), B[b]? = some v → v = 0 ∨ (base ≤ v ∧ v < base + i + l.length)) →
+    ∀ (b v : Nat), (gnuBucketsGo nb base i start l B)[b]? = some v → v = 0 ∨ (base ≤ v ∧ v < base + i + l.length) := by
+  intro l
+  induction l with
+  | nil => intro i s B hB b v h; exact hB b v h
+  | cons h t ih =>
+    intro i start B hB b v hv
+    unfold gnuBucketsGo at hv
+    have := ih (i + 1) (lastInChain nb h t) _ (by
+      intro b' v' hb'
+      split at hb'
+      · rw [List.getElem?_set] at hb'
+        split at hb'
+        · split at hb'
+          · cases hb'; right; simp; omega
+          · cases hb'
+        · rcases hB b' v' hb' with h0 | h1
+          · exact Or.inl h0
+          · right; simp at h1 ⊢; omega
+      · rcases hB b' v' hb' with h0 | h1
+        · exact Or.inl h0
+        · right; simp at h1 ⊢; omega) b v hv
+    simp at this ⊢; omega
+
+theorem gnu_builder_closed (base : Nat) (names : List (List UInt8)) : GnuClosed (buildGnu base names) := by
+  have hnb : 0 < nextPowerOfTwo (names.length / 2) := nextPowerOfTwo_pos _
+  refine ⟨hnb, ?_, ?_, ?_, ?_⟩
+  · simp [buildGnu, writeGnu, createGnuLayout, gnuBuckets, gnuBucketsGo_length]
+  · intro x
+    obtain ⟨w', h1, _, _⟩ := gnuBloom_one_aux 6 ((gnuOrder names).map dlNewHash) 0
+    refine ⟨w', ?_⟩
+    simp only [buildGnu, writeGnu, createGnuLayout, gnuBloom, List.replicate_one, h1, Nat.sub_self, Nat.and_zero]
+    rfl
+  · intro b v hv
+    have := gnuBucketsGo_range (nextPowerOfTwo (names.length / 2)) base ((gnuOrder names).map dlNewHash) 0 true
+      (List.replicate _ 0) (by
+        intro b' v' h'
+        simp only [List.getElem?_replicate] at h'
+        split at h'
+        · cases h'; exact Or.inl rfl
+        · cases h') b v hv
+    rcases this with h0 | h1
+    · exact Or.inl h0
+    · right
+      simp only [buildGnu, writeGnu, createGnuLayout, gnuChain_length]
+      simp at h1 ⊢; omega
+  · intro j w hw he
+    simp only [buildGnu, writeGnu, createGnuLayout] at hw ⊢
+    have hj : j < ((gnuOrder names).map dlNewHash).length := by
+      have := (List.getElem?_eq_some_iff.mp hw).1
+      simpa [gnuChain_length] using this
+    rw [gnuChain_getElem? _ _ j hj] at hw
+    cases hw
+    rw [chainWord_isEnd] at he
+    rw [gnuChain_length]
+    apply Nat.lt_of_not_le
+    intro hge
+    rw [List.drop_eq_nil_of_le hge] at he
+    simp [lastInChain] at he
+
+/-- exact result for undefined names: glibc reports "not found" and never reads outside wild's table -/
+theorem gnu_absent_notFound (base : Nat) (names : List (List UInt8)) (n : List UInt8) (hn : n ∉ names) :
+    lookupGnu (buildGnu base names) (gnuOrder names) n = .notFound := by
+  rcases gnu_lookup_total_of_closed _ (gnu_builder_closed base names) (gnuOrder names) n with ⟨i, h⟩ | h
+  · exact absurd h (gnu_absent_not_found base names n hn i)
+  · exact h
+
+
+
+/-- Closedness of a SysV table: all indices stay inside the table and links go upwards. -/
+structure SysvClosed (t : SysvTable) : Prop where
+  nb_pos : 0 < t.nbucket
+  buckets_len : t.buckets.length = t.nbucket
+  bucket_range : ∀ (b v : Nat), t.buckets[b]? = some v → v < t.chain.length
+  chain_range : ∀ (a c : Nat), t.chain[a]? = some c → c < t.chain.length
+  incr : ∀ (a c : Nat), t.chain[a]? = some c → c = 0 ∨ a < c
+
+theorem sysvWalk_total (chain : List Nat) (base : Nat) (syms : List (List UInt8)) (n : List UInt8)
+    (hr : ∀ (a c : Nat), chain[a]? = some c → c < chain.length)
+    (incr : ∀ (a c : Nat), chain[a]? = some c → c = 0 ∨ a < c) :
+    ∀ fuel idx, 1 ≤ fuel → (idx = 0 ∨ (idx < chain.length ∧ chain.length - idx + 1 ≤ fuel)) →
+      (∃ i, sysvWalk chain base syms n fuel idx = .found i) ∨ sysvWalk chain base syms n fuel idx = .notFound := by
+  intro fuel
+  induction fuel with
+  | zero => intro idx h; omega
+  | succ f ih =>
+    intro idx _ hcase
+    unfold sysvWalk
+    split
+    · exact Or.inr rfl
+    · rename_i h0
+      rcases hcase with h | ⟨hlt, hf⟩
+      · exact absurd h h0
+      · split
+        · exact Or.inl ⟨_, rfl⟩
+        · rw [List.getElem?_eq_getElem hlt]
+          simp only
+          have hc := List.getElem?_eq_getElem hlt
+          rcases incr _ _ hc with hz | hgt
+          · exact ih _ (by omega) (Or.inl hz)
+          · exact ih _ (by omega) (Or.inr ⟨hr _ _ hc, by omega⟩)
+
+theorem sysv_lookup_total_of_closed (t : SysvTable) (c : SysvClosed t) (base : Nat) (syms : List (List UInt8))
+    (n : List UInt8) : (∃ i, lookupSysv t base syms n = .found i) ∨ lookupSysv t base syms n = .notFound := by
+  unfold lookupSysv lookupSysvFuel
+  have h1 : ¬ t.nbucket = 0 := by have := c.nb_pos; omega
+  simp only [h1, if_false]
+  have hlt : (elfHash n).toNat % t.nbucket < t.buckets.length := by
+    rw [c.buckets_len]; exact Nat.mod_lt _ c.nb_pos
+  rw [List.getElem?_eq_getElem hlt]
+  simp only
+  have hs := c.bucket_range _ _ (List.getElem?_eq_getElem hlt)
+  exact sysvWalk_total _ _ _ _ c.chain_range c.incr _ _ (by omega) (Or.inr ⟨hs, by omega⟩)
+
+
+theorem sysv_builder_closed (base : Nat) (names : List (List UInt8)) (hb : 1 ≤ base) :
+    SysvClosed (buildSysv base names) := by
+  have hnb : 0 < sysvBucketCount names.length := nextPowerOfTwo_pos _
+  have inv := sysv_fold_inv (sysvBucketCount names.length) base (base + names.length) hb hnb
+    (names.map elfHash) [] _ (sysv_init_inv _ _ _ (by omega)) (by simp)
+  simp only [List.nil_append, List.length_nil] at inv
+  have hlc := inv.lenC
+  refine ⟨hnb, inv.lenB, ?_, ?_, inv.incr⟩
+  · intro b v h
+    have := inv.bndB b v h
+    simp only [buildSysv, writeSysv] at hlc ⊢
+    omega
+  · intro a c h
+    have := inv.bndC a c h
+    simp only [buildSysv, writeSysv] at hlc ⊢
+    omega
+
+/-- exact result for undefined names (SysV): "not found", and the walk never leaves wild's table -/
+theorem sysv_absent_notFound (base : Nat) (names : List (List UInt8)) (hb : 1 ≤ base) (n : List UInt8) (hn : n ∉ names) :
+    lookupSysv (buildSysv base names) base names n = .notFound := by
+  rcases sysv_lookup_total_of_closed _ (sysv_builder_closed base names hb) base names n with ⟨i, h⟩ | h
+  · exact absurd h (sysv_absent_not_found base names n hn i)
+  · exact h
 /-! ### non-vacuity / sanity examples (evaluated by the kernel) -/
 section Examples
 def exNames : List (List UInt8) := ["foo".toUTF8.toList, "bar".toUTF8.toList, "baz".toUTF8.toList, "qux".toUTF8.toList, "foo".toUTF8.toList]
@@ -253,5 +459,6 @@ example : lookupGnu (buildGnu 0 [[1]]) (gnuOrder [[1]]) [1] = .notFound := by de
 /-- dropping the end-of-chain bit makes the walk leave the table (what `chain_terminates`/`WF` exclude) -/
 example : gnuWalk [0x10, 0x20] [[1], [2]] 1 0x40 [3] 3 0 = .oob := by decide +kernel
 end Examples
+
 
 end Wild.Hash
